@@ -7,7 +7,7 @@ if ! git apply --3way "$DIR/patch.diff" 2>/tmp/apply.err; then
   if ! git apply "$DIR/patch.diff" 2>>/tmp/apply.err; then echo "$ID: patch does not apply"; cat /tmp/apply.err | head -5; git checkout -- . ; git reset -q --hard HEAD; exit 1; fi
 fi
 for c in "$@"; do
-  out=$(cd /verif && ./check $c 2>&1)
+  out=$(cd /verif && VERIF_EVIDENCE_DIR=/tmp/try-seeded-evidence ./check $c 2>&1)
   rc=$?
   echo "$ID vs $c: exit=$rc $(echo "$out" | grep -c '^VIOLATION') violation line(s); $(echo "$out" | grep '^'$c' tier' | head -1)"
   echo "$out" | grep -A2 '^VIOLATION' | grep signature | sort | uniq -c | head -5
